@@ -448,7 +448,7 @@ Proof.
   destruct (fst r =? snd r)%Z eqn:E; [apply Z.eqb_eq in E; contradiction | exact Ho].
 Qed.
 
-(* before repair 49868ec an insertion at the first column of an ignored line was not refused:
+(* before repair 8992e08 an insertion at the first column of an ignored line was not refused:
    overlap alone does not see it, touches does *)
 Theorem insertion_at_line_start :
   let src := [120; 32; 35; 112; 121; 114; 101; 102; 97; 99; 116; 58; 105; 103; 110; 111; 114; 101; 10; 121; 10]%N in
